@@ -31,7 +31,8 @@ Prefix == << [a |-> "BeginBlock", dt |-> 1000],
 
 EntNom == [signers |-> <<"A1", "A2">>, min |-> 2, limit |-> 3, denom |-> "nund"]
 EntVariants ==
-     { [EntNom EXCEPT !.signers = s] : s \in { <<"A1">>, <<"A2", "A4">>, <<>>, <<"A1", "BAD">>, <<"A1", "">>, <<"A1", "A1">>, <<"A1", "A2", "A4">> } }
+     { [EntNom EXCEPT !.signers = s] : s \in { <<"A1">>, <<"A2", "A4">>, <<>>, <<"A1", "BAD">>, <<"A1", "">>, <<"A1", "A1">>, <<"A1", "A2", "A4">>,
+                                              <<"A1", " A2">>, <<"A1 ", "A2">>, <<" A1">> } }
   \cup { [EntNom EXCEPT !.min = n] : n \in {0, 1, 2, 3, Big63, Big64} }
   \cup { [EntNom EXCEPT !.limit = n] : n \in {0, 1, Big64} }
   \cup { [EntNom EXCEPT !.denom = d] : d \in {"", " ", "1x", "other"} }
